@@ -169,8 +169,22 @@ def run(ctx):
         # which frame does Frame.validate see?  its argument must be the whole frame
         classes = sorted({x[1] for x in subterms(rc) if x[0] == "global" and x[1] in prog.classes}) if rc else []
         ctx.extra["dispatch_classes"] = classes
+        def prop_ids(facts_):
+            for c in facts_:
+                c = strip(c)
+                if c[0] == "cmp" and c[1] == "in" and c[3][0] in ("list", "tuple", "set") and sorted(v[3] for v in c[3][1] if v[0] == "enum") == [0xB0, 0xB1]:
+                    return True
+                if c[0] == "cmp" and c[1] == "==" and any(x[0] == "enum" and x[3] in (0xB0, 0xB1) for x in (c[2], c[3])):
+                    return True
+            return False
         if "body_ok" in st_ev:
             ctx.ob("C13.a", ci.qual, True, "construction is dominated by Response.validate(body) for every class")
+        elif rc is not None and strip(rc) == ("global", PROPS):
+            # a separate return that builds exactly the exempt class: it must be reached only for the property response ids
+            ctx.ob("C13.a", ci.qual, prop_ids(atoms(pc)), "the unvalidated return builds PropertiesResponse and is reached only for response ids 0xB0 / 0xB1",
+                   func=ci.qual, file=file, node=node, detail={"facts": [show(f)[:100] for f in atoms(pc)]},
+                   fail="a PropertiesResponse is built without body validation for response ids other than 0xB0 / 0xB1")
+            ctx.count("exemptions")
         else:
             # Response.validate is conditional: the condition must be exactly `selected class != PropertiesResponse`
             calls = [n for n in ast.walk(ci.node) if isinstance(n, ast.Expr) and is_call_stmt(n, RESP_VALIDATE)]
@@ -201,14 +215,8 @@ def run(ctx):
                     yield t, conds
             for leaf, conds in leaves(strip(rc), []):
                 if leaf == ("global", PROPS):
-                    pos = [strip(a) for a in atoms(conds)]      # definite facts on this leaf (conjunctions flattened)
-                    ids_ok = False
-                    for c in pos:
-                        if c[0] == "cmp" and c[1] == "in" and c[3][0] in ("list", "tuple", "set"):
-                            vals = sorted(v[3] for v in c[3][1] if v[0] == "enum")
-                            ids_ok = vals == [0xB0, 0xB1]
-                        elif c[0] == "cmp" and c[1] == "==" and any(x[0] == "enum" and x[3] in (0xB0, 0xB1) for x in (c[2], c[3])):
-                            ids_ok = True
+                    # definite facts on this leaf (conjunctions flattened) and on the path of this return
+                    ids_ok = prop_ids([strip(a) for a in atoms(conds)] + [strip(a) for a in atoms(pc)])
                     ctx.ob("C13.a", ci.qual, ids_ok, "PropertiesResponse (the exempt class) is selected only for response ids 0xB0 / 0xB1",
                            func=ci.qual, file=file, construct="response_class = PropertiesResponse",
                            fail="the exempt class PropertiesResponse is selected for other response ids: their body check is skipped")
